@@ -594,6 +594,37 @@ pub fn one_case(r: &mut Rng, g: &mut ExprGen, out: &mut Out, k_subst: usize) {
             s.text = s.text.trim_end_matches(';').to_string() + &format!(" when {{ {cond} }};");
             out.count("record_projection_with_risky_sibling");
         }
+        if r.chance(15) {
+            // a conditional whose GUARD stays residual while both branches reduce to the same value: the guard can still
+            // error (or be a non-boolean) under a substitution, so the conditional must not be folded to the branch value.
+            // The guard forms fail for different kinds of substituted value, so most substitutions make one of them error.
+            let k: Option<String> = c.ctx.as_ref().and_then(|kvs| {
+                let unk_keys: Vec<String> = kvs.iter().filter(|(_, a)| matches!(a, AttrSpec::Unk { wrap: 0, .. })).map(|(k, _)| k.to_string()).collect();
+                if unk_keys.is_empty() { None } else { Some(unk_keys[r.below(unk_keys.len())].clone()) }
+            });
+            let acc = match (&k, c.ctx.is_none()) {
+                (_, true) => "context.session".to_string(),
+                (Some(k), _) if k.chars().all(|ch| ch.is_ascii_alphanumeric()) && !["if", "in", "is", "has", "like", "then", "else", "true", "false"].contains(&k.as_str()) => format!("context.{k}"),
+                (Some(k), _) => format!("context[\"{k}\"]"),
+                (None, _) => "context.nosuchattr".to_string(),
+            };
+            let guard = match r.below(6) {
+                0 => acc.clone(),
+                1 => format!("{acc} > 0"),
+                2 => format!("{acc} like \"a*\""),
+                3 => format!("{acc}.mfa"),
+                4 => format!("{acc}.isLoopback()"),
+                _ => format!("{acc}.contains(1)"),
+            };
+            let (b1, b2) = *r.pick(&[("true", "true"), ("false", "false"), ("1 < 2", "true"), ("[1].contains(1)", "!false"), ("principal == principal", "true")]);
+            let cond = match r.below(3) {
+                0 => format!("if {guard} then {b1} else {b2}"),
+                1 => format!("(if {guard} then {b1} else {b2}) || false"),
+                _ => format!("(if {guard} then 7 else 3 + 4) == 7"),
+            };
+            s.text = s.text.trim_end_matches(';').to_string() + &format!(" when {{ {cond} }};");
+            out.count("residual_guard_over_equal_branches");
+        }
         if c.partial && !c.dropped.is_empty() && r.chance(35) {
             // tags of an entity that is MISSING from the partial store (the store answers with a residual): the residual
             // must still be a tag test when re-authorized against the complete store ("n" is both an attribute and a tag key)
